@@ -31,6 +31,7 @@ func vc01Specs() []vfxSpec {
 	a.NumSlots, a.MaxTx, a.BigObjects, a.Boundary, a.ZeroTimes, a.MultiSig = 60, 3, true, true, true, true
 	b := vfxDefaultSpec("c01b", 123, seed+1)
 	b.NumSlots, b.FrameSize, b.FanOut, b.LongHeader, b.Rewards, b.FirstRel = 50, 70, 3, true, true, 1000
+	b.EdgeTimes, b.ShuffleNext, b.ShortSigs = true, true, true
 	c := vfxDefaultSpec("c01c", 1, seed+2)
 	c.NumSlots, c.SkipPercent, c.MaxEntries, c.MaxTx, c.FirstRel = 30, 50, 1, 1, vfxEpochLen-30
 	specs := []vfxSpec{a, b, c}
@@ -229,6 +230,18 @@ func vc01OneEpoch(t *testing.T, rep *vh.Report, cases *vh.CasesFile, tr *vfxTrut
 					rep.Fail("signature-not-reported-existing:"+mode, fmt.Sprintf("%s sig %s", name, tx.Sig), replay)
 				}
 			}
+		}
+		// every object a second time through the same Epoch: the caches in front of the index and the CAR (offset
+		// and size, raw object) must not change what a fetch returns
+		for i, o := range tr.Objects {
+			want := car[o.Offset+o.SecLen-vc01DataLen(car, o) : o.Offset+o.SecLen]
+			got, err := ep.GetNodeByCid(ctx, vfxCidFromHex(o.Cid))
+			if err != nil {
+				rep.Fail("object-not-fetched-again:"+mode, fmt.Sprintf("%s object #%d (second fetch): %v", name, i, err), replay)
+			} else if !bytes.Equal(got, want) {
+				rep.Fail("object-bytes-differ-on-second-fetch:"+mode, fmt.Sprintf("%s object #%d: got %d bytes, want %d", name, i, len(got), len(want)), replay)
+			}
+			rep.Count("second-fetch:" + mode)
 		}
 		ep.Close()
 	}
